@@ -134,7 +134,7 @@ CLAIMED = {
         technique='Coq proof (induction over word/fragment lists) + extracted-model correspondence; meaning clause by generator-oracle',
         design='5/C10'),
     'C09': dict(
-        text='PARTIAL. UNBOUNDED on a fragment: for every document of one or more blank-line-separated trees - any size and depth - of paragraphs of one or more lines whose delimiter characters, if any, are inert (* _ [ ] ! > & ( ) allowed wherever none can open or close anything: inert_para_b - no backslash, backtick, ~, <, $, {, |, no "](", no run of * or _ that can close, & and ; not both), one-line paragraphs that mix any number of emphasised phrases and inline links in any order (leaf FSent), one-line paragraphs with one emphasised phrase (text, a run of * or _ once or twice, words, the run again, text) or with one inline link (text, [words](destination), text; the destination a run of characters without white space, parentheses or a character a span finder needs), ATX headings, thematic breaks, fenced code blocks, block quotes and lists of one or more items, each followed by a blank line or directly by the next (same bullet, or same delimiter with any numbers; an item followed by a blank line or holding two blocks is loose, the list is tight only if no item is), '
+        text='PARTIAL. With normalize_whitespace=True, on trees of quotes and lists of any depth over paragraphs of plain words (with fences, ATX headings, thematic breaks): the renderer writes the tree with one space after every list marker; that text lies in the fragment again, has exactly the original HTML, and is a fixed point (C09_normalize_whitespace_round_trip). UNBOUNDED on a fragment: for every document of one or more blank-line-separated trees - any size and depth - of paragraphs of one or more lines whose delimiter characters, if any, are inert (* _ [ ] ! > & ( ) allowed wherever none can open or close anything: inert_para_b - no backslash, backtick, ~, <, $, {, |, no "](", no run of * or _ that can close, & and ; not both), one-line paragraphs that mix any number of emphasised phrases and inline links in any order (leaf FSent), one-line paragraphs with one emphasised phrase (text, a run of * or _ once or twice, words, the run again, text) or with one inline link (text, [words](destination), text; the destination a run of characters without white space, parentheses or a character a span finder needs), ATX headings, thematic breaks, fenced code blocks, block quotes and lists of one or more items, each followed by a blank line or directly by the next (same bullet, or same delimiter with any numbers; an item followed by a blank line or holding two blocks is loose, the list is tight only if no item is), '
              'parsing the spelled text with the Markdown renderer\'s token sets (model of Document(lines)) and rendering it without a line limit gives back exactly the text '
              '(C09_fragment_round_trip; hence same meaning, fixed point, exact normal form) with no side condition - the two the proof first forced (a fence is not empty, code lines do not begin with white space) were renderer defects and are repaired (fix: 50fc060, 1070095); '
              'the same identity is proved for tight nested bullet lists written one item per line (any size, depth, bullet, padding, indentation). Beyond these fragments, proved for ALL token trees about the Gallina model of the Markdown renderer: without a line limit the fragment texts are written '
